@@ -28,7 +28,36 @@ fn main() {
         std::process::exit(2);
     }
     let rest = &args[2..];
-    match args[1].as_str() {
+    // helper roles (child services, build-script helper) behave like ordinary programs
+    if matches!(args[1].as_str(), "actprobe" | "actserve" | "stdioserve" | "cargobuild") {
+        dispatch(&args[1], rest);
+        return;
+    }
+    // drivers: every assumption the driver makes about values coming back from the library (unwrap / expect / indexing) is
+    // part of its oracle; when one fails, that is an observation about the tree under test, reported like any other
+    static WHERE: std::sync::Mutex<String> = std::sync::Mutex::new(String::new());
+    std::panic::set_hook(Box::new(|info| {
+        let on_main = std::thread::current().name() == Some("main");
+        if on_main {
+            if let Some(l) = info.location() {
+                *WHERE.lock().unwrap_or_else(|e| e.into_inner()) = format!("{}:{}", l.file(), l.line());
+            }
+        }
+        eprintln!("{}", info);
+    }));
+    let sub = args[1].clone();
+    let r = std::panic::catch_unwind(std::panic::AssertUnwindSafe(|| dispatch(&sub, rest)));
+    if let Err(p) = r {
+        let msg = p.downcast_ref::<&str>().map(|s| s.to_string()).or_else(|| p.downcast_ref::<String>().cloned()).unwrap_or_default();
+        let at = WHERE.lock().unwrap_or_else(|e| e.into_inner()).clone();
+        util::emit(&serde_json::json!({"fail": true, "case": 0, "variant": "driver-assumption", "sig": format!("driver assumption failed at {} ({})", at, sub),
+            "detail": format!("the driver `vh {}` stopped at {}: {} -- a value that came back from the library was not what every run on the unchanged tree produces", sub, at, msg)}));
+        util::emit(&serde_json::json!({"summary": true, "cases": 0, "executions": 0, "failures": 1, "aborted": "driver-assumption"}));
+    }
+}
+
+fn dispatch(sub: &str, rest: &[String]) {
+    match sub {
         "connref" => connref::run(rest),
         "conn" => connmc::run(rest),
         "cuts" => cuts::run(rest),
